@@ -127,6 +127,14 @@ def h_ops(ctx, cfg):
         return
     ctx.nontrivial = True
     info = lambda: dict(eager=str(Re), postponed=str(Rp))
+    try:
+        Rp.evaluated()
+        for _p in Rp.parameters.values():
+            _p.upgraded_annotation.source_value()
+        Rp.upgraded_return_annotation.source_value()
+    except Exception as e:
+        ctx.require('postponed-annotations-evaluate-without-raising', False, lambda: dict(exc=repr(e), op=op))
+        return
     ctx.require('same-parameters', [(p.name, int(p.kind)) for p in Re.parameters.values()] ==
                 [(p.name, int(p.kind)) for p in Rp.parameters.values()], info)
     Ev = Rp.evaluated()
